@@ -285,4 +285,29 @@ def toBF (hk : Basis) : BF := ⟨hk.tag, hk.vals⟩
 def qModel (S A : List Nat) (ddn : List DNode) (γ : Rat) (h : List Basis) (R : List BasisM) (v : List Rat) : FM :=
   fmPlusEqualFM S A (fmScaleW (v.map (γ * ·)) (backProjectFV (toGraph S A ddn) (toT ddn) (h.map toBF))) (R.map (toBM S A))
 
+/-! ## LP::solve (src/Utils/LP/LpSolveWrapper.cpp): which calls it makes into lp_solve and when it hands a point back.
+    `retry` / `accept` are the lp_solve result codes of the two tests in the source (`if (result == … || …)` before the
+    second `::solve`, `if (result == 0 || result == 1)` before the point is copied), taken from the translator. -/
+
+/-- number of `::solve(lp)` calls: a second one (first-index pricing, default basis) iff the first result is a retry code -/
+def lpSolveCalls (retry : List Int) (r0 : Int) : Nat := if retry.contains r0 then 2 else 1
+
+/-- the result LP::solve finally looks at (`r1` = result of the second call, if made) -/
+def lpSolveFinal (retry : List Int) (r0 r1 : Int) : Int := if retry.contains r0 then r1 else r0
+
+/-- does LP::solve return a point (`std::optional` engaged)? -/
+def lpSolveSome (retry accept : List Int) (r0 r1 : Int) : Bool := accept.contains (lpSolveFinal retry r0 r1)
+
+/-- the recorded call sequence is the one the model predicts: right number of calls, and the point is handed back iff the
+    last result is an accept code -/
+def lpSolveTraceOk (retry accept : List Int) (results : List Int) (gotPoint : Bool) : Bool :=
+  match results with
+  | [r0] => !retry.contains r0 && gotPoint == accept.contains r0
+  | [r0, r1] => retry.contains r0 && gotPoint == accept.contains r1
+  | _ => false
+
+/-- every column of the point lp_solve handed back satisfies every row of the LP within `tol` -/
+def pointSatB (tol : Rat) (rows : List CRow) (pt : List Rat) : Bool :=
+  rows.all (fun r => r.satB tol (fun c => pt.getD c 0))
+
 end AITB.FLP
